@@ -43,6 +43,14 @@ class QueryChecker:
 
     def __call__(self, touched, step):
         op = step["op"]
+        if op == "bad_query":
+            # an out-of-range threshold: whatever the call does (numpy 2 raises OverflowError) is not judged,
+            # but the caller may catch the exception and carry on, and later answers must still be right
+            try:
+                self.w.sk[step["i"]].query(step["k"], step["t"])
+            except Exception:
+                self.nt.add("bad_threshold_rejected")
+            return
         if op == "query":
             self.check_query(step["i"], step["k"], step["t"])
         elif op == "save_load":
@@ -57,7 +65,13 @@ class QueryChecker:
         sk = w.sk[i]
         if t is None and not none_threshold_ok(sk):
             return
-        ans = sut(sk.query, k, t)  # the answer under test, taken first
+        got = sut(sk.query, k, t)  # the answer under test, taken first
+        ans = list(got)
+        # the returned list belongs to the caller: scribbling on it must not change later answers
+        if isinstance(got, list):
+            got.reverse()
+            got.append((b"scribble", 0))
+            del got[: len(got) // 2]
         changed = self.dirty[i] or self.last_t[i] != t
         self.dirty[i] = False
         self.last_t[i] = t
@@ -69,6 +83,9 @@ class QueryChecker:
             raise Violation(f"{ctx}: returned {len(ans)} > k entries", "too-many")
         keys = [a[0] for a in ans]
         counts = [int(a[1]) for a in ans]
+        for key in keys:
+            if not isinstance(key, bytes) or len(key) > w.cfg["max_key_len"]:
+                raise Violation(f"{ctx}: returned a key that cannot be stored in this sketch: {key!r}", "alien-key")
         if len(set(keys)) != len(keys):
             raise Violation(f"{ctx}: duplicate keys {keys}", "duplicate-keys")
         if any(counts[j] < counts[j + 1] for j in range(len(counts) - 1)):
@@ -128,6 +145,14 @@ def _threshold_walk(self, i, k, t1, t2, t3):
         self.do({"op": "query", "i": i % self.N, "k": k, "t": t})
 
 
+@rule(i=machines.SK, k=KS, t=st.sampled_from([-1, 2**32, 2**40, float("inf"), -2.5]), t_ok=TS)
+def _bad_then_good_query(self, i, k, t, t_ok):
+    i = i % self.N
+    self.do({"op": "query", "i": i, "k": k, "t": t_ok})
+    self.do({"op": "bad_query", "i": i, "k": k, "t": t})
+    self.do({"op": "query", "i": i, "k": k, "t": t_ok})
+
+
 @rule(i=machines.SK, k=KS, t=TS, t2=TS)
 def _cross_query(self, i, k, t, t2):
     """query X, then another sketch object Y, then X again with the same arguments (cache-hit path of X)"""
@@ -147,7 +172,7 @@ def _patched_world_apply():
     orig = World.apply
 
     def apply(self, step):
-        if step["op"] == "query":
+        if step["op"] in ("query", "bad_query"):
             return set()
         return orig(self, step)
 
@@ -162,9 +187,9 @@ def _shard(arg):
     holder = {}
     M = machines.make_machine(
         "C13Machine", QueryChecker, rec, holder, CFG=CFG, N=2, VALUES=VALUES, MAXKEY=11, draw_universe=_draw_universe,
-        query=_query, requery=_requery, threshold_walk=_threshold_walk, cross_query=_cross_query,
+        query=_query, requery=_requery, threshold_walk=_threshold_walk, cross_query=_cross_query, bad_then_good_query=_bad_then_good_query,
     )
-    common.run_machine(M, common.derive_seed(seed, "C13", shard), n_examples, steps, holder, rec)
+    common.run_machine(M, common.derive_seed(seed, "C13", shard), n_examples, steps, holder, rec, retry=lambda c_: machines.replay_trace(c_, QueryChecker))
     return rec
 
 
